@@ -114,7 +114,7 @@ def ob_unbox(run, interp):
             conn._local_objects.add(idm, mine)
             other._local_objects.add(idt, theirs)
             label = SymInt(c.fresh_int("label"))
-            kinds = ["value", "valid-id", "foreign-id", "stale-id", "forged-id", "short-id", "junk", "nested"]
+            kinds = ["value", "valid-id", "foreign-id", "stale-id", "forged-id", "short-id", "junk", "nested", "forged-builtin-id"]
             k = kinds[c.choose(len(kinds), "payload")]
             if k == "value":
                 payload = SymInt(c.fresh_int("v"))
@@ -126,6 +126,10 @@ def ob_unbox(run, interp):
                 payload = (idm[0], idm[1], idm[2] + 8)
             elif k == "forged-id":
                 payload = ("builtins.list", 424242, 434343 + c.choose(2, "forged-instance"))
+            elif k == "forged-builtin-id":
+                # the name of a class every process has, any class id, instance id 0 / 1 / the class id again
+                nm = ["builtins.dict", "builtins.function", "builtins.code", "builtins.object", "builtins.type", "builtins.list"][c.choose(6, "builtin-name")]
+                payload = (nm, 424242, [0, 1, 424242][c.choose(3, "instance-id")])
             elif k == "short-id":
                 payload = ("builtins.list",)
             elif k == "junk":
@@ -164,6 +168,8 @@ def ob_unbox(run, interp):
                         bad = "a proxy bound to another connection was created"
                     elif isinstance(x, Spy) and x is not n["mine"]:
                         bad = "an object never lent on this connection was obtained"
+                    elif x is not n["mine"] and not isinstance(x, (int, str, bytes, float, bool, type(None), Sym, netref.BaseNetref)):
+                        bad = "an object never lent on this connection was obtained: %s" % (getattr(x, "__name__", None) or type(x).__name__,)
                 # a label outside 1..4 must be refused
                 ok, m = c.must_hold(z3.And(lab >= 1, lab <= 4))
                 if not ok:
@@ -180,8 +186,16 @@ conn._local_objects.add(get_id_pack(mine), mine); other._local_objects.add(get_i
 label, kind = %d, %r
 idt = get_id_pack(theirs); idm = get_id_pack(mine)
 payload = {"value": 7, "valid-id": idm, "foreign-id": idt, "stale-id": (idm[0], idm[1], idm[2] + 8), "forged-id": ("builtins.list", 1, 2),
-           "short-id": ("builtins.list",), "junk": None, "nested": ((label, idt), (1, 5))}[kind]
+           "short-id": ("builtins.list",), "junk": None, "nested": ((label, idt), (1, 5)), "forged-builtin-id": None}[kind]
 bad = []
+if kind == "forged-builtin-id":
+    for nm in ("builtins.dict", "builtins.function", "builtins.code", "builtins.object", "builtins.type", "builtins.list"):
+        for inst in (0, 1, 424242):
+            try:
+                got = conn._unbox((label, (nm, 424242, inst)))
+                if got is not mine and not isinstance(got, netref.BaseNetref): bad.append("resolved %%r from a forged identifier %%r" %% (got, (nm, 424242, inst)))
+            except Exception as e:
+                pass
 try:
     out = conn._unbox((label if kind != "nested" else 2, payload))
     flat = []
@@ -206,7 +220,7 @@ if bad:
         if incomplete:
             o.verdict = "inconclusive"
             o.detail = incomplete
-        if len(acc.counts) < 8:
+        if len(acc.counts) < 9:
             raise core.HarnessError("reachability twin: %s" % acc.counts)
     return ob
 
